@@ -482,6 +482,39 @@ func (ex *Exec) specCall(st *State, e *ast.CallExpr) []*Val {
 				}
 			}
 			return one(&Val{T: tBool, Term: and(cs...)})
+		case "pre":
+			// pre("2", e): e evaluated in the state just before loop 2 was entered
+			path := strings.Trim(e.Args[0].(*ast.BasicLit).Value, "\"")
+			ps := st.loopPre[path]
+			if ps == nil {
+				ex.specFail("pre(%q, ...): loop not entered on this path", path)
+			}
+			view := st.clone()
+			view.heaps = ps.heaps
+			view.vars = map[types.Object]*Val{}
+			for k, v := range st.vars {
+				view.vars[k] = v
+			}
+			for k, v := range ps.vars {
+				view.vars[k] = v
+			}
+			view.pc = nil
+			v := ex.expr(view, e.Args[1])
+			for _, p := range view.pc {
+				st.assume(p)
+			}
+			return one(v)
+		case "mapStr":
+			// mapStr(m, "key"): element of a map[string]string (possibly boxed in an interface)
+			m := ex.expr(st, e.Args[0])
+			k := ex.materialize(ex.expr(st, e.Args[1]), tString)
+			mh := ex.heap(st, "Map$"+smtName(SStr)+"$"+smtName(SStr), arrSort(SInt, arrSort(SStr, SStr)))
+			return one(&Val{T: tString, Term: sel(sel(mh, m.Term), k.Term)})
+		case "sameArray":
+			// sameArray(a, b): the two slices share their backing array
+			a := ex.expr(st, e.Args[0])
+			b := ex.expr(st, e.Args[1])
+			return one(&Val{T: tBool, Term: and(eq(ex.sRef(a.Term), ex.sRef(b.Term)), not(eq(ex.sRef(a.Term), intLit(0))))})
 		case "boxes":
 			// boxes(x, v): interface value x holds exactly the value v
 			x := ex.expr(st, e.Args[0])
@@ -772,6 +805,9 @@ func (ex *Exec) pureAppN(st *State, fn *types.Func, args []*Val) []*Val {
 // pureApp models a function as an uninterpreted function of its arguments.
 func (ex *Exec) pureApp(st *State, fn *types.Func, args []*Val) *Val {
 	sig := fn.Type().(*types.Signature)
+	if sig.Results().Len() > 1 {
+		return ex.pureAppN(st, fn, args)[0]
+	}
 	var rt types.Type = tBool
 	if sig.Results().Len() >= 1 {
 		rt = sig.Results().At(0).Type()
